@@ -112,7 +112,7 @@ def run(tier, seed, replay=None):
             out.case(text)
             out.count("position", pos.split("<")[0] if not pos.startswith("exec2") else "exec2")
             out.count("verdict", impl)
-            if dec.reason.startswith("parse error"):
+            if impl == "ask" and lib.parser_rejects(text):
                 out.count("parser", "rejected")
             # AST coverage tie: every executable node of the real AST lies inside the closure of the
             # specification [sub] the completeness theorem is stated over
@@ -163,7 +163,9 @@ def run(tier, seed, replay=None):
                 an.analyze = real_analyze
             if not ds:
                 return ["none"]
-            if len(ds) == 1 and ds[0].action == "ask" and ds[0].reason == "complex substitution" and not seen_inner:
+            # "too complex to delimit": one ask that is not the verdict of an analysed substitution (no inner analysis
+            # ran, the decision wraps no child) - recognised by structure, not by the wording of the reason
+            if len(ds) == 1 and ds[0].action == "ask" and not seen_inner and not getattr(ds[0], "children", None):
                 return ["complex"]
             return ["subs", list(seen_inner)]
 
